@@ -216,7 +216,7 @@ Definition wf_value (v : pval) : bool :=
   | VByte n => n <? 256
   | VU16 n => n <? 65536
   | VU32 n => n <? 4294967296
-  | VVarInt n => n <=? MAX_REMAINING
+  | VVarInt n => n <=? 268435455
   | VStr s | VBin s => str_ok s
   | VPair k v => str_ok k && str_ok v
   end.
